@@ -32,7 +32,7 @@ def tpDict (tle : List Txt) : Dict :=
   (ommTleKeys.zip tle).map (fun kuv => (kuv.1.1, Val.field kuv.2 []))
 
 structure OmmWf (m : Omm) : Prop where
-  frame : m.frame ∈ frameTable.map (·.1)
+  frame : m.frame ∈ earthFrames
   name : m.name ≠ ""
   id : m.id ≠ ""
   scale : m.scale ≠ ""
@@ -71,7 +71,7 @@ theorem omm_data_kids (m : Omm) (h : OmmWf m) :
     (by intro e he; simp only [List.mem_map] at he; obtain ⟨x, _, rfl⟩ := he; rfl)
     (by cases hc : m.cov with
         | none => simp
-        | some c => simp [(cov_xml_roundtrip' m.frame h.frame c (h.cov c hc)).1])
+        | some c => simp [(cov_xml_roundtrip' m.frame (earthFrames_sub _ h.frame) c (h.cov c hc)).1])
     (by intro v hv; simp only [List.mem_map] at hv; obtain ⟨_, _, rfl⟩ := hv; rfl)]
   have hu := ud_elems m.ud h.ud
   have := recurseKids_group0 "userDefinedParameters"
@@ -88,7 +88,7 @@ orbit's frame, QSW or TNW; user-defined fields absent, empty, one or many; made 
 XML writer produced gives `m` back — without the `Tle` object, which no reader restores. -/
 theorem omm_xml_load_dump_id (m : Omm) (h : OmmWf m) :
     (ommXml m >>= loadOmmXml) = .ok { m with hasTle := false, ud := normUd m.ud } := by
-  obtain ⟨c, r, hfo, _, hc, hr, hrf⟩ := frameOut_ok m.frame h.frame
+  obtain ⟨c, r, hfo, _, hc, hr, hrf⟩ := frameOut_ok_earth m.frame h.frame
   have hmeta := omm_meta_xml m.name m.id c r m.scale h.name h.id hc hr h.scale
   have hkids := omm_data_kids m h
   have hx := xml2dict_odm_shape "omm" (metaXml m.name m.id c r m.scale [("MEAN_ELEMENT_THEORY", .s "SGP/SGP4")]) _ _ _ hmeta rfl hkids (by simp)
@@ -127,6 +127,6 @@ theorem omm_xml_load_dump_id (m : Omm) (h : OmmWf m) :
   dsimp only
   rw [hseg]
   simp only [bind, Except.bind, getItem, hme, htp, asDict, hcore, pure, Except.pure,
-    covFromXml_of_lookup m.frame h.frame m.cov h.cov _ hcv, xmlUd_of_lookup wrapOmmUd (by decide) m.ud h.ud _ hud]
+    covFromXml_of_lookup m.frame (earthFrames_sub _ h.frame) m.cov h.cov _ hcv, xmlUd_of_lookup wrapOmmUd (by decide) m.ud h.ud _ hud]
 
 end BeyondVerif.C13
